@@ -560,7 +560,7 @@ func Harness_C24_Recv() {
 		MessageSeq:  zzsym.U64("messageSeq"),
 		ClientMsgNo: zzsym.String("clientMsgNo", l[1]),
 		StreamNo:    zzsym.String("streamNo", l[2]),
-		StreamId:    c24StreamID((kind+3)%c24IDKinds),
+		StreamId:    c24StreamID((kind + 3) % c24IDKinds),
 		StreamFlag:  frame.StreamFlag(zzsym.U8("streamFlag")),
 		Timestamp:   zzsym.I32("timestamp"),
 		ChannelID:   zzsym.String("channelId", l[3]),
